@@ -1565,3 +1565,17 @@ MUTANTS += [
  dict(name='c13-skip-loop-passes-equal', prop='C13', expect='strictly below',
       edits=[('src/wkdibe/api.cpp', 'while (k != attrs->length && attrs->attrs[k].idx < sk.b[i].idx) {', 'while (k != attrs->length && attrs->attrs[k].idx <= sk.b[i].idx) {')]),
 ]
+
+# ---- round 14 seeds
+MUTANTS += [
+ dict(name='seed-C01-pow2-scaling-truncated-quotient', prop='C01', patch='seeded/C01-line-step-pow2-scaling-truncated-quotient/patch.diff', expect='VIOLATION property=C01'),
+ dict(name='seed-C04-fq2-frobenius-raw-negation', prop='C04', patch='seeded/C04-fq2-frobenius-raw-negation-of-zero/patch.diff', expect='VIOLATION property=C04'),
+ dict(name='seed-C05-add-normalized-fastpath', prop='C05', patch='seeded/C05-add-normalized-fastpath-doubles-opposite-points/patch.diff', expect='R-GUARD/G4'),
+ dict(name='seed-C07-powers-random-horner', prop='C07', patch='seeded/C07-powers-random-horner-accumulates-over-retries/patch.diff', expect='VIOLATION property=C07'),
+ dict(name='seed-C08-skip-identity-swap-with-last', prop='C08', patch='seeded/C08-skip-identity-pairs-swap-with-last/patch.diff', expect='VIOLATION property=C08'),
+ dict(name='seed-C10-random-accepts-modulus', prop='C10', patch='seeded/C10-random-accepts-the-modulus/patch.diff', expect='VIOLATION property=C10'),
+ dict(name='seed-C12-precompute-drops-flagged', prop='C12', patch='seeded/C12-precompute-shares-keygen-accumulator-drops-flagged/patch.diff', expect='VIOLATION property=C12'),
+ dict(name='seed-C16-encrypt-shared-inversion', prop='C16', patch='seeded/C16-encrypt-shared-inversion-sp-infinity/patch.diff', expect='VIOLATION property=C16'),
+ dict(name='seed-C19-core-h-literal-alignment', prop='C19', patch='seeded/C19-core-h-words-with-literal-alignment/patch.diff', expect='VIOLATION property=C19'),
+ dict(name='seed-C20-g2prepared-mutable-cursor', prop='C20', patch='seeded/C20-g2prepared-owns-mutable-cursor/patch.diff', expect='mutable'),
+]
